@@ -211,14 +211,17 @@ def gen_policy(rnd: random.Random, kind: str):
     return pol
 
 
-async def attempt(loop, eth, resp, supp, flow, policy, third, who="both") -> dict:
-    """One binding attempt on both (or one) ends under `policy`."""
+async def attempt(loop, eth, resp, supp, flow, policy, third, who="both", opts=None) -> dict:
+    """One binding attempt on both (or one) ends under `policy`.  `opts`: {"cancel": {"R"|"S": after_s}} the caller gives
+    up (task cancellation); {"refuse": "R"|"S"} that end's gateway refuses to send (engine paused) during the attempt;
+    {"gap": s} how long after the attempt's end the next one starts (default 12 s: every state timer has fired by then)."""
+    opts = opts or {}
     frames = flow[2]
 
     def pol(frame, src, dst):
         listener = "R" if dst == GWY_R else "S"
         for i, f in enumerate(frames):
-            if frame[:2] == f[:2] and frame[37:41] == f[37:41] and frame[7:16] == f[7:16] and (frame[17:26] == f[17:26] or i == 0):
+            if frame[:2] == f[:2] and frame[37:41] == f[37:41] and frame[7:16] == f[7:16] and (frame[17:26] == f[17:26] or (i == 0 and frame[17:26] in ("--:------", "63:262142"))):   # an Offer is to nobody / everybody
                 return policy.get((i, listener), [0.0])
         return [0.0]
 
@@ -241,7 +244,16 @@ async def attempt(loop, eth, resp, supp, flow, policy, third, who="both") -> dic
         tasks["S"] = asyncio.ensure_future(supp._initiate_binding_process(offer_codes, confirm_code=confirm_code, ratify_cmd=ratify_cmd))
     for delay, fr in third:
         eth.inject(fr, delay=delay)
+    paused = None
+    if opts.get("refuse") in tasks:
+        paused = (resp if opts["refuse"] == "R" else supp)._gwy
+        paused._pause()
+    for k, after in (opts.get("cancel") or {}).items():
+        if k in tasks:
+            loop.call_later(after, tasks[k].cancel)
     done, pending = await asyncio.wait(list(tasks.values()), timeout=90.0)
+    if paused is not None:
+        paused._resume()
     out = {"t": loop.time() - t0, "hung": sorted(k for k, t in tasks.items() if t in pending)}
     for t in pending:
         t.cancel()
@@ -249,12 +261,15 @@ async def attempt(loop, eth, resp, supp, flow, policy, third, who="both") -> dic
         if t in pending:
             out[k] = ("hung", "")
             continue
+        if t.cancelled():
+            out[k] = ("cancelled", "")
+            continue
         e = t.exception()
         if e is None:
             out[k] = ("ok", [str(p) if p is not None else None for p in t.result()])
         else:
             out[k] = ("err", type(e).__name__ + ":" + type(e).__mro__[1].__name__)
-    await asyncio.sleep(12.0)      # let every state timer fire
+    await asyncio.sleep(opts.get("gap", 12.0))      # 12 s: every state timer has fired
     out["binding_after"] = {"R": bool(resp._bind_context.is_binding), "S": bool(supp._bind_context.is_binding)}
     out["loop_errors"] = [repr(e) for e in loop.errors]
     loop.errors.clear()
@@ -275,9 +290,9 @@ async def episode(loop, flow_name, scenarios, blog: BindLog) -> list:
     ensure_fakeable(resp)
     ensure_fakeable(supp)
     outs = []
-    for policy, third, who in scenarios:
+    for policy, third, who, *rest in scenarios:
         blog.rows.clear()
-        o = await attempt(loop, eth, resp, supp, flow, policy, third, who)
+        o = await attempt(loop, eth, resp, supp, flow, policy, third, who, rest[0] if rest else None)
         o["trace"] = {k: list(v) for k, v in blog.rows.items()}
         o["ids"] = (resp.id, supp.id)
         outs.append(o)
@@ -286,12 +301,25 @@ async def episode(loop, flow_name, scenarios, blog: BindLog) -> list:
     return outs
 
 
+RECEIVING = ((0, "R"), (1, "S"), (2, "R"), (3, "R"))   # (frame of the flow, the end it is addressed to)
+
+
+def one_late_in_time(policy, n_frames: int = 3) -> bool:
+    """every delivery prompt, except that one frame reaches its addressee up to 2.5 s late (all waits are 3 s or more) -
+    without overtaking: the Confirm of a flow with addenda is followed at once by the addenda (same sender, no wait), so
+    delaying it alone would swap the two on the air, which a radio does not do"""
+    late = [(k, d) for k, d in policy.items() if d != [0.0]]
+    return (len(late) == 1 and late[0][0] in RECEIVING and len(late[0][1]) == 1 and late[0][1][0] <= 2.5
+            and not (late[0][0] == (2, "R") and n_frames > 3))
+
+
 def nothing_lost(policy) -> bool:
     return all(policy.get((i, w), [0.0]) and min(policy.get((i, w), [0.0])) < 2.5 for i in range(4) for w in ("R", "S"))
 
 
 def score(chk: Check, flow_name, scen, o, rep) -> None:
-    policy, third, who = scen
+    policy, third, who = scen[:3]
+    opts = scen[3] if len(scen) > 3 else {}
     flow = FLOWS[flow_name]
     n = len(flow[2])
     for k in ("R", "S"):
@@ -300,7 +328,9 @@ def score(chk: Check, flow_name, scen, o, rep) -> None:
         kind, val = o[k]
         role = "respondent" if k == "R" else "supplicant"
         chk.count(f"outcome.{k}.{kind if kind != 'err' else val.split(':')[0]}")
-        if kind == "hung":
+        if kind == "cancelled" and k in (opts.get("cancel") or {}):
+            pass
+        elif kind == "hung":
             chk.violation(f"c20.hang.{role}", f"{flow_name}: the {role}'s attempt had not ended after 90 s", rep)
         elif kind == "err" and "BindingError" not in val and not val.startswith("Binding"):
             chk.violation(f"c20.foreign_exception.{role}:{val.split(':')[0]}", f"{flow_name}: the {role}'s attempt ended with {val}, not a binding error", rep)
@@ -321,7 +351,8 @@ def score(chk: Check, flow_name, scen, o, rep) -> None:
                     for d, fr in third)
     if competing:
         chk.count("competing_third_party_offer")
-    if who == "both" and not competing and nothing_lost(policy) and not any(d for d in policy.values() if d and min(d) > 0.4):
+    if who == "both" and not competing and not opts.get("cancel") and not opts.get("refuse") and nothing_lost(policy) \
+            and (one_late_in_time(policy, n) or not any(d for d in policy.values() if d and min(d) > 0.4)):
         for k in ("R", "S"):
             if o[k][0] != "ok":
                 chk.violation(f"c20.failed_without_loss.{k}", f"{flow_name}: nothing was lost or late, yet the {'respondent' if k == 'R' else 'supplicant'} ended with {o[k]}", rep)
@@ -357,6 +388,20 @@ def run(chk: Check) -> None:
                     scenarios.append((gen_policy(rnd, "clean"), third, rnd.choice(("R", "S"))))
                 else:
                     scenarios.append((gen_policy(rnd, kind), third, "both"))
+                # an attempt that ends early by the caller's own doing or by a refused send, and a retry soon after it
+                # (while the timers of the abandoned attempt would still be running) whose frames are late but in time
+                if rnd.random() < 0.35:
+                    k = rnd.choice(("R", "S"))
+                    how = rnd.choice(("cancel", "refuse"))
+                    opts = {"gap": rnd.choice((0.2, 1.0, 3.0))}
+                    if how == "cancel":
+                        opts["cancel"] = {k: rnd.choice((0.01, 0.5, 2.0, 2.9))}
+                    else:
+                        opts["refuse"] = k
+                    scenarios.append((gen_policy(rnd, "clean"), [], rnd.choice(("both", k)), opts))
+                    late = gen_policy(rnd, "clean")
+                    late[rnd.choice(RECEIVING)] = [rnd.choice((1.0, 2.0, 2.5))]   # one frame reaches its addressee late, within the wait
+                    scenarios.append((late, [], "both"))
             scenarios.append((gen_policy(rnd, "clean"), [], "both"))     # a clean attempt must always succeed afterwards
 
             async def body(loop, flow_name=flow_name, scenarios=scenarios):
@@ -370,8 +415,8 @@ def run(chk: Check) -> None:
             for i, (scen, o) in enumerate(zip(scenarios, outs)):
                 chk.evaluations += 1
                 pol_json = {f"{k[0]}{k[1]}": v for k, v in scen[0].items()}
-                rep = {"op": "bind", "flow": flow_name, "attempt": i, "policy": pol_json, "third": scen[1], "who": scen[2],
-                       "earlier": [{"policy": {f"{k[0]}{k[1]}": v for k, v in s[0].items()}, "third": s[1], "who": s[2]} for s in scenarios[:i]],
+                rep = {"op": "bind", "flow": flow_name, "attempt": i, "policy": pol_json, "third": scen[1], "who": scen[2], "opts": scen[3] if len(scen) > 3 else {},
+                       "earlier": [{"policy": {f"{k[0]}{k[1]}": v for k, v in s[0].items()}, "third": s[1], "who": s[2], "opts": s[3] if len(s) > 3 else {}} for s in scenarios[:i]],
                        "outcome": {k: o.get(k) for k in ("R", "S")}, "trace": o["trace"]}
                 chk.nontrivial.add((flow_name, json.dumps(pol_json, sort_keys=True), json.dumps(scen[1]), scen[2]))
                 score(chk, flow_name, scen, o, rep)
